@@ -142,6 +142,13 @@ def classify(result, prov):
             for ln in range(s['line_end'], s['line_end'] + 1):
                 if ln in tagmap:
                     tags = tagmap[ln]
+        if tags is None:
+            # e.g. `invariant not satisfied`: the primary span is the clause itself
+            for sp in primary:
+                if sp['line_end'] in tagmap:
+                    tags = tagmap[sp['line_end']]
+                    clause_text = clause_text or ' '.join(t['text'].strip() for t in sp.get('text', []))
+                    break
         where = None
         if func is None:
             ln = primary[0]['line_start'] if primary else 0
